@@ -1,8 +1,618 @@
 import Grass.Proto
-/- Core `Calc` — stub; replaced by the model (see DESIGN.md §8). -/
+/-
+  C16 core — calc()/min()/max()/clamp() simplification.
+
+  Mirrors, function by function,
+    crates/compiler/src/value/calculation.rs   (`CalculationArg`, `SassCalculation::{calc,min,max,clamp,
+                                                 verify_length,verify_compatible_numbers,operate_internal,simplify}`)
+    crates/compiler/src/value/sass_number.rs   (`has_compatible_units`, `is_comparable_to`,
+                                                 `has_possibly_compatible_units`, `multiply_units`, Add/Sub/Mul/Div)
+    crates/compiler/src/value/number.rs:158    (`Number::convert`)
+    crates/compiler/src/unit/mod.rs:170        (`Unit::comparable`, `kind`), unit/conversion.rs (table, known compatibilities)
+    crates/compiler/src/evaluate/visitor.rs:2584,2653 (`visit_calculation_value`, `visit_calculation_expr`)
+    crates/compiler/src/serializer.rs:318,335  (`visit_calculation`, `write_calculation_arg`)
+    crates/compiler/src/parse/value.rs:1588,1623,1677 (the grammar the printed form is read back with)
+
+  Numbers are exact rationals (DESIGN §6); the units are the closed set
+  px in cm mm pt | em rem | vw | % | deg turn | s ms | unitless, plus products/quotients of them.
+  A panic of the real code (`HashMap` index in `Number::convert`, the `debug_assert!` before it) is the
+  explicit outcome `Res.panic`; the model never totalises it away.
+-/
 namespace Grass.Calc
 
-def handle : List String → String
-  | _ => "bad-op"
+/-! ### units -/
+
+inductive BU where
+  | px | inch | cm | mm | pt | em | rem | pct | vw | deg | turn | s | ms
+  deriving DecidableEq, Repr, Inhabited
+
+/-- `UnitKind` (unit/mod.rs:122). -/
+inductive Kind where
+  | absolute | fontRel | viewRel | angle | time | other | none
+  deriving DecidableEq, Repr
+
+/-- `Unit::kind` (unit/mod.rs:196) on base units. -/
+def BU.kind : BU → Kind
+  | .px | .inch | .cm | .mm | .pt => .absolute
+  | .em | .rem => .fontRel
+  | .vw => .viewRel
+  | .deg | .turn => .angle
+  | .s | .ms => .time
+  | .pct => .other
+
+/-- A `Unit` value: `Unit::None` = `⟨[],[]⟩`, a plain unit = `⟨[u],[]⟩`, everything else is
+    `Unit::Complex` (`Unit::new`, unit/mod.rs:135, never builds `Complex` for the first two shapes,
+    so structural equality here is Rust's derived `PartialEq`). -/
+structure CUnit where
+  numer : List BU
+  denom : List BU
+  deriving DecidableEq, Repr, Inhabited
+
+def CUnit.none : CUnit := ⟨[], []⟩
+def CUnit.single (u : BU) : CUnit := ⟨[u], []⟩
+
+def CUnit.isNone (u : CUnit) : Bool := u.numer.isEmpty && u.denom.isEmpty
+
+/-- `Unit::is_complex` (unit/mod.rs:158). -/
+def CUnit.isComplex (u : CUnit) : Bool :=
+  match u with
+  | ⟨[], []⟩ => false
+  | ⟨[_], []⟩ => false
+  | _ => true
+
+def CUnit.kind (u : CUnit) : Kind :=
+  match u with
+  | ⟨[], []⟩ => .none
+  | ⟨[b], []⟩ => b.kind
+  | _ => .other
+
+/-- `Unit::invert` (unit/mod.rs:152). -/
+def CUnit.invert (u : CUnit) : CUnit := ⟨u.denom, u.numer⟩
+
+/-- `Unit::comparable` (unit/mod.rs:162). -/
+def comparable (a b : CUnit) : Bool :=
+  if b.isNone then true else
+  match a.kind with
+  | .fontRel | .viewRel | .other => a == b
+  | .none => true
+  | k => b.kind == k
+
+/-- `Unit::comparable` on two base units (as used by `are_any_convertible`, unit/mod.rs:110). -/
+def BU.comparable (a b : BU) : Bool :=
+  match a.kind with
+  | .fontRel | .viewRel | .other => a == b
+  | k => b.kind == k
+
+/-- `SassNumber::has_compatible_units` (sass_number.rs:46): unitless only with unitless. -/
+def compatible (a b : CUnit) : Bool :=
+  if (a.isNone || b.isNone) && a != b then false else comparable a b
+
+/-- `known_compatibilities_by_unit` (unit/conversion.rs:186): index of the set, if any. -/
+def knownCompat (u : CUnit) : Option Nat :=
+  match u with
+  | ⟨[b], []⟩ =>
+    match b with
+    | .px | .inch | .cm | .mm | .pt | .em | .rem | .vw => some 0
+    | .deg | .turn => some 1
+    | .s | .ms => some 2
+    | .pct => Option.none
+  | _ => Option.none
+
+/-- `SassNumber::has_possibly_compatible_units` (sass_number.rs:223).
+    `strict = false` is the code as it stands.  `strict = true` adds the rule of the reference
+    implementation that a unitless number is not compatible with a number that has a unit
+    (dart-sass compares the numerator-unit counts first); used for the specified variant. -/
+def possiblyCompatible (strict : Bool) (a b : CUnit) : Bool :=
+  if a.isComplex || b.isComplex then false else
+  if strict && (a.isNone != b.isNone) then false else
+  match knownCompat a with
+  | Option.none => true
+  | some g => knownCompat b == some g || (knownCompat b).isNone
+
+/-- `UNIT_CONVERSION_TABLE[to].get(from)` (unit/conversion.rs:15): the factor that turns a value
+    in `from` into a value in `to`.  Written entry by entry from the Rust table. -/
+def table (to frm : BU) : Option Rat :=
+  match to, frm with
+  | .inch, .inch => some 1
+  | .inch, .cm => some (1 / (254/100))
+  | .inch, .mm => some (1 / (254/10))
+  | .inch, .pt => some (1 / 72)
+  | .inch, .px => some (1 / 96)
+  | .cm, .inch => some (254/100)
+  | .cm, .cm => some 1
+  | .cm, .mm => some (1 / 10)
+  | .cm, .pt => some ((254/100) / 72)
+  | .cm, .px => some ((254/100) / 96)
+  | .mm, .inch => some (254/10)
+  | .mm, .cm => some 10
+  | .mm, .mm => some 1
+  | .mm, .pt => some ((254/10) / 72)
+  | .mm, .px => some ((254/10) / 96)
+  | .pt, .inch => some 72
+  | .pt, .cm => some (72 / (254/100))
+  | .pt, .mm => some (72 / (254/10))
+  | .pt, .pt => some 1
+  | .pt, .px => some (3 / 4)
+  | .px, .inch => some 96
+  | .px, .cm => some (96 / (254/100))
+  | .px, .mm => some (96 / (254/10))
+  | .px, .pt => some (4 / 3)
+  | .px, .px => some 1
+  | .deg, .deg => some 1
+  | .deg, .turn => some 360
+  | .turn, .deg => some (1 / 360)
+  | .turn, .turn => some 1
+  | .s, .s => some 1
+  | .s, .ms => some (1 / 1000)
+  | .ms, .s => some 1000
+  | .ms, .ms => some 1
+  | _, _ => Option.none
+
+/-- `conversion_factor(from, to)` (sass_number.rs:24). -/
+def convFactor (frm to : BU) : Option Rat :=
+  if frm = to then some 1 else table to frm
+
+/-- `Number::convert(self, from, to)` (number.rs:158).  `none` = the real code panics: the
+    `debug_assert!(from.comparable(to))` fails, or `UNIT_CONVERSION_TABLE[to][from]` has no entry. -/
+def convert (x : Rat) (frm to : CUnit) : Option Rat :=
+  if frm.isNone || to.isNone || frm == to then some x else
+  if !comparable frm to then Option.none else
+  match to, frm with
+  | ⟨[t], []⟩, ⟨[f], []⟩ => (table t f).map (x * ·)
+  | _, _ => Option.none
+
+/-! ### outcomes -/
+
+inductive Err where
+  | incompatible        -- "{a} and {b} are incompatible."
+  | complexInCalc       -- "Number {n} isn't compatible with CSS calculations."
+  | badLength           -- "3 arguments required, but only {n} {was|were} passed."
+  | invalidCssValue     -- "{n} isn't a valid CSS value." (serializer.rs:551)
+  | nonFinite           -- division by zero: the real code goes on with ±Infinity/NaN; the model stops
+  deriving DecidableEq, Repr
+
+inductive Res (α : Type) where
+  | ok (a : α)
+  | err (e : Err)
+  | panic
+  deriving Repr
+
+def Res.bind {α β : Type} (r : Res α) (f : α → Res β) : Res β :=
+  match r with
+  | .ok a => f a
+  | .err e => .err e
+  | .panic => .panic
+
+/-! ### numbers with units (`SassNumber`) -/
+
+structure Num where
+  n : Rat
+  u : CUnit
+  deriving DecidableEq, Repr, Inhabited
+
+/-- `impl Add for SassNumber` (sass_number.rs:262). -/
+def numAdd (a b : Num) : Res Num :=
+  if a.u == b.u then .ok ⟨a.n + b.n, a.u⟩
+  else if a.u.isNone then .ok ⟨a.n + b.n, b.u⟩
+  else if b.u.isNone then .ok ⟨a.n + b.n, a.u⟩
+  else match convert b.n b.u a.u with
+    | some c => .ok ⟨a.n + c, a.u⟩
+    | Option.none => .panic
+
+/-- `impl Sub for SassNumber` (sass_number.rs:294). -/
+def numSub (a b : Num) : Res Num :=
+  if a.u == b.u then .ok ⟨a.n - b.n, a.u⟩
+  else if a.u.isNone then .ok ⟨a.n - b.n, b.u⟩
+  else if b.u.isNone then .ok ⟨a.n - b.n, a.u⟩
+  else match convert b.n b.u a.u with
+    | some c => .ok ⟨a.n - c, a.u⟩
+    | Option.none => .panic
+
+/-- `are_any_convertible` (unit/mod.rs:110). -/
+def anyConvertible (xs ys : List BU) : Bool := xs.any (fun x => ys.any (fun y => x.comparable y))
+
+/-- One `retain` pass of `multiply_units` (sass_number.rs:95): remove the first denominator unit
+    that converts to `numer`, returning the factor. -/
+def removeFirstConv (numer : BU) : List BU → Option (Rat × List BU)
+  | [] => Option.none
+  | d :: ds =>
+    match convFactor d numer with
+    | some f => some (f, ds)
+    | Option.none =>
+      match removeFirstConv numer ds with
+      | some (f, r) => some (f, d :: r)
+      | Option.none => Option.none
+
+/-- The `for numer in …` loop of `multiply_units`: (value, kept numerators, remaining denominators). -/
+def cancelLoop : List BU → List BU → Rat → Rat × List BU × List BU
+  | [], ds, x => (x, [], ds)
+  | n :: ns, ds, x =>
+    match removeFirstConv n ds with
+    | some (f, ds') => cancelLoop ns ds' (x / f)
+    | Option.none =>
+      match cancelLoop ns ds x with
+      | (x', kept, ds'') => (x', n :: kept, ds'')
+
+/-- `SassNumber::multiply_units` (sass_number.rs:55). -/
+def multiplyUnits (su : CUnit) (num : Rat) (ou : CUnit) : Num :=
+  let nu := su.numer; let du := su.denom; let on := ou.numer; let od := ou.denom
+  if nu.isEmpty && od.isEmpty && !anyConvertible du on then ⟨num, ⟨on, du⟩⟩
+  else if nu.isEmpty && du.isEmpty then ⟨num, ⟨on, od⟩⟩
+  else if !nu.isEmpty && on.isEmpty && (od.isEmpty || (du.isEmpty && !anyConvertible nu od)) then
+    ⟨num, ⟨nu, od⟩⟩
+  else
+    match cancelLoop nu od num with
+    | (x1, kept1, od') =>
+      match cancelLoop on du x1 with
+      | (x2, kept2, du') => ⟨x2, ⟨kept1 ++ kept2, du' ++ od'⟩⟩
+
+/-- `impl Mul for SassNumber` (sass_number.rs:326). -/
+def numMul (a b : Num) : Num :=
+  if b.u.isNone then ⟨a.n * b.n, a.u⟩ else multiplyUnits a.u (a.n * b.n) b.u
+
+/-- `impl Div for SassNumber` (sass_number.rs:341).  A zero divisor leaves the finite numbers:
+    the real code continues with ±Infinity / NaN and prints `Infinitypx` / `NaN`; the model
+    reports `nonFinite` and the theorems are guarded by its absence. -/
+def numDiv (a b : Num) : Res Num :=
+  if b.n = 0 then .err .nonFinite
+  else if b.u.isNone then .ok ⟨a.n / b.n, a.u⟩
+  else .ok (multiplyUnits a.u (a.n / b.n) b.u.invert)
+
+/-! ### calculation trees (`CalculationArg`, calculation.rs:16) -/
+
+inductive Op where
+  | plus | minus | mul | div
+  deriving DecidableEq, Repr, Inhabited
+
+inductive CName where
+  | calc | min | max | clamp
+  deriving DecidableEq, Repr, Inhabited
+
+/-- `CalculationName::in_min_or_max` (calculation.rs:60). -/
+def CName.inMinMax : CName → Bool
+  | .min | .max => true
+  | _ => false
+
+/-- `BinaryOp::precedence` (common.rs:32) for the four operators. -/
+def Op.prec : Op → Nat
+  | .plus | .minus => 5
+  | .mul | .div => 6
+
+mutual
+/-- `CalculationArg`.  `str id paren` is `CalculationArg::String`: opaque text such as `var(--x)`
+    (identified by `id`; `paren` = the text is the parenthesised form `(var(--x))` built at
+    visitor.rs:2599).  `interp id` is `CalculationArg::Interpolation`.  The same type is used for the
+    source expression (`AstExpr` restricted to calculations: `Paren` is transparent, a variable
+    holding a number/calculation/unquoted string is its value). -/
+inductive CalcArg where
+  | number (n : Rat) (u : CUnit)
+  | calculation (name : CName) (args : CalcArgs)
+  | str (id : Nat) (paren : Bool)
+  | interp (id : Nat)
+  | operation (l : CalcArg) (op : Op) (r : CalcArg)
+inductive CalcArgs where
+  | nil
+  | cons (a : CalcArg) (as : CalcArgs)
+end
+
+def CalcArgs.toList : CalcArgs → List CalcArg
+  | .nil => []
+  | .cons a as => a :: as.toList
+
+def CalcArgs.ofList : List CalcArg → CalcArgs
+  | [] => .nil
+  | a :: as => .cons a (CalcArgs.ofList as)
+
+/-- Switches for the places where the code deviates (or deviated) from the property.
+    `Cfg.now` is the code as it stands and is what the correspondence runs against. -/
+structure Cfg where
+  /-- `true`: `clamp` reduces only under `has_compatible_units` (calculation.rs:195, after the
+      `fix:` commit for D1).  `false`: the guard found on the pinned tree, `is_comparable_to`. -/
+  clampGuarded : Bool
+  /-- `false`: `clamp` as coded (`value <= min → min; value >= max → max; value`).
+      `true`: CSS `max(MIN, min(VAL, MAX))` (they differ exactly when `MAX < MIN < VAL`). -/
+  clampCss : Bool
+  /-- passed to `possiblyCompatible`. -/
+  strict : Bool
+  deriving Repr
+
+def Cfg.now : Cfg := ⟨true, false, false⟩
+def Cfg.spec : Cfg := ⟨true, true, true⟩
+def Cfg.asFoundD1 : Cfg := ⟨false, false, false⟩
+
+/-- Result of a simplification step; `coerced` records that a unitless number was combined with a
+    number that has a unit inside `min()`/`max()` (Sass's legacy coercion: `is_comparable_to`
+    instead of `has_compatible_units`), which is outside CSS semantics. -/
+structure Out where
+  arg : CalcArg
+  coerced : Bool
+
+/-- `SassCalculation::simplify` (calculation.rs:402): `calc(x)` as an argument is `x`.
+    (`calc.args.remove(0)` — a `calc` value always has exactly one argument.) -/
+def simplify : CalcArg → CalcArg
+  | .calculation .calc (.cons a .nil) => a
+  | a => a
+
+def isComplexNumber : CalcArg → Bool
+  | .number _ u => u.isComplex
+  | _ => false
+
+/-- Is some later number not possibly compatible with unit `u`? -/
+def incompatWith (strict : Bool) (u : CUnit) : List CalcArg → Bool
+  | [] => false
+  | .number _ v :: rest => !possiblyCompatible strict u v || incompatWith strict u rest
+  | _ :: rest => incompatWith strict u rest
+
+def anyIncompatPair (strict : Bool) : List CalcArg → Bool
+  | [] => false
+  | .number _ u :: rest => incompatWith strict u rest || anyIncompatPair strict rest
+  | _ :: rest => anyIncompatPair strict rest
+
+/-- `verify_compatible_numbers` (calculation.rs:258). -/
+def verifyCompatible (strict : Bool) (args : List CalcArg) : Res Unit :=
+  if args.any isComplexNumber then .err .complexInCalc
+  else if anyIncompatPair strict args then .err .incompatible
+  else .ok ()
+
+def isOpaque : CalcArg → Bool
+  | .str _ _ | .interp _ => true
+  | _ => false
+
+/-- `verify_length` (calculation.rs:229). -/
+def verifyLength (args : List CalcArg) (len : Nat) : Res Unit :=
+  if args.length == len then .ok ()
+  else if args.any isOpaque then .ok ()
+  else .err .badLength
+
+def Op.flip : Op → Op
+  | .plus => .minus
+  | .minus => .plus
+  | o => o
+
+/-- `SassCalculation::operate_internal` (calculation.rs:317) with `simplify = true`. -/
+def operate (cfg : Cfg) (inMinMax : Bool) (op : Op) (left right : CalcArg) : Res Out :=
+  let left := simplify left
+  let right := simplify right
+  match op with
+  | .plus | .minus =>
+    let generic : Res Out :=
+      (verifyCompatible cfg.strict [left, right]).bind fun _ =>
+        match right with
+        | .number n u =>
+          if n < 0 then .ok ⟨.operation left op.flip (.number (-n) u), false⟩
+          else .ok ⟨.operation left op right, false⟩
+        | _ => .ok ⟨.operation left op right, false⟩
+    match left, right with
+    | .number a ua, .number b ub =>
+      if (if inMinMax then comparable ua ub else compatible ua ub) then
+        (if op = .plus then numAdd ⟨a, ua⟩ ⟨b, ub⟩ else numSub ⟨a, ua⟩ ⟨b, ub⟩).bind fun r =>
+          .ok ⟨.number r.n r.u, !compatible ua ub⟩
+      else generic
+    | _, _ => generic
+  | .mul | .div =>
+    match left, right with
+    | .number a ua, .number b ub =>
+      if op = .mul then
+        let r := numMul ⟨a, ua⟩ ⟨b, ub⟩
+        .ok ⟨.number r.n r.u, false⟩
+      else (numDiv ⟨a, ua⟩ ⟨b, ub⟩).bind fun r => .ok ⟨.number r.n r.u, false⟩
+    | _, _ => .ok ⟨.operation left op right, false⟩
+
+/-- `SassCalculation::calc` (calculation.rs:76). -/
+def calcFn (arg : CalcArg) : CalcArg :=
+  match simplify arg with
+  | .number n u => .number n u
+  | .calculation nm as => .calculation nm as
+  | a => .calculation .calc (.cons a .nil)
+
+/-- The loop of `SassCalculation::min` / `max` (calculation.rs:94, :138).
+    Result: the surviving extremum (`none` = `break` with `minimum = None`) and the coercion flag. -/
+def extremumLoop (isMax : Bool) : Option Num → List CalcArg → Res (Option Num × Bool)
+  | m, [] => .ok (m, false)
+  | Option.none, .number n u :: rest => extremumLoop isMax (some ⟨n, u⟩) rest
+  | some m, .number n u :: rest =>
+    if !comparable m.u u then .ok (Option.none, false)
+    else match convert n u m.u with
+      | Option.none => .panic
+      | some c =>
+        (extremumLoop isMax (if (if isMax then m.n < c else m.n > c) then some ⟨n, u⟩ else some m) rest).bind
+          fun (r, co) => .ok (r, co || !compatible m.u u)
+  | _, _ :: _ => .ok (Option.none, false)
+
+/-- `SassCalculation::min` / `max` (calculation.rs:88, :130). -/
+def extremumFn (cfg : Cfg) (isMax : Bool) (args : List CalcArg) : Res Out :=
+  let args := args.map simplify
+  (extremumLoop isMax Option.none args).bind fun (m, co) =>
+    match m with
+    | some m => .ok ⟨.number m.n m.u, co⟩
+    | Option.none =>
+      (verifyCompatible cfg.strict args).bind fun _ =>
+        .ok ⟨.calculation (if isMax then .max else .min) (CalcArgs.ofList args), false⟩
+
+/-- The reducing branch of `SassCalculation::clamp` (calculation.rs:189–206). -/
+def clampReduce (cfg : Cfg) (mn v mx : Num) : Res Num :=
+  match convert mn.n mn.u v.u, convert mx.n mx.u v.u with
+  | some mn', some mx' =>
+    if v.n ≤ mn' then .ok mn
+    else if cfg.clampCss && mx' ≤ mn' then .ok mn
+    else if v.n ≥ mx' then .ok mx
+    else .ok v
+  | _, _ => .panic
+
+/-- `SassCalculation::clamp` (calculation.rs:174). -/
+def clampFn (cfg : Cfg) (args : List CalcArg) : Res Out :=
+  let args := args.map simplify
+  let generic : Res Out :=
+    (verifyLength args 3).bind fun _ =>
+      (verifyCompatible cfg.strict args).bind fun _ =>
+        .ok ⟨.calculation .clamp (CalcArgs.ofList args), false⟩
+  match args with
+  | [.number a ua, .number b ub, .number c uc] =>
+    if (if cfg.clampGuarded then compatible ua ub && compatible ua uc
+        else comparable ua ub && comparable ua uc) then
+      (clampReduce cfg ⟨a, ua⟩ ⟨b, ub⟩ ⟨c, uc⟩).bind fun r =>
+        .ok ⟨.number r.n r.u, !(compatible ua ub && compatible ua uc)⟩
+    else generic
+  | _ => generic
+
+/-- The `match name` of `visit_calculation_expr` (visitor.rs:2670). -/
+def applyName (cfg : Cfg) (name : CName) (args : List CalcArg) : Res Out :=
+  match name with
+  | .calc =>
+    match args with
+    | [a] => .ok ⟨calcFn a, false⟩
+    | _ => .err .badLength          -- the parser admits exactly one argument
+  | .min => extremumFn cfg false args
+  | .max => extremumFn cfg true args
+  | .clamp => clampFn cfg args
+
+mutual
+/-- `visit_calculation_value` (visitor.rs:2584). -/
+def visitValue (cfg : Cfg) (imm : Bool) : CalcArg → Res Out
+  | .number n u => .ok ⟨.number n u, false⟩
+  | .str id p => .ok ⟨.str id p, false⟩
+  | .interp id => .ok ⟨.interp id, false⟩
+  | .operation l op r =>
+    match visitValue cfg imm l with
+    | .ok l' =>
+      match visitValue cfg imm r with
+      | .ok r' =>
+        match operate cfg imm op l'.arg r'.arg with
+        | .ok o => .ok ⟨o.arg, o.coerced || l'.coerced || r'.coerced⟩
+        | .err e => .err e
+        | .panic => .panic
+      | .err e => .err e
+      | .panic => .panic
+    | .err e => .err e
+    | .panic => .panic
+  | .calculation name args =>
+    match visitArgs cfg name.inMinMax args with
+    | .ok (as, co) =>
+      match applyName cfg name as with
+      | .ok o => .ok ⟨o.arg, o.coerced || co⟩
+      | .err e => .err e
+      | .panic => .panic
+    | .err e => .err e
+    | .panic => .panic
+/-- The `map` over the arguments in `visit_calculation_expr` (visitor.rs:2659). -/
+def visitArgs (cfg : Cfg) (imm : Bool) : CalcArgs → Res (List CalcArg × Bool)
+  | .nil => .ok ([], false)
+  | .cons a as =>
+    match visitValue cfg imm a with
+    | .ok a' =>
+      match visitArgs cfg imm as with
+      | .ok (as', co) => .ok (a'.arg :: as', a'.coerced || co)
+      | .err e => .err e
+      | .panic => .panic
+    | .err e => .err e
+    | .panic => .panic
+end
+
+mutual
+/-- Every number can be written as CSS (`visit_number`, serializer.rs:551). -/
+def printable : CalcArg → Bool
+  | .number _ u => !u.isComplex
+  | .calculation _ args => printableArgs args
+  | .str _ _ | .interp _ => true
+  | .operation l _ r => printable l && printable r
+def printableArgs : CalcArgs → Bool
+  | .nil => true
+  | .cons a as => printable a && printableArgs as
+end
+
+/-- A whole declaration value `name(args…)`: evaluate, then serialize. -/
+def compile (cfg : Cfg) (src : CalcArg) : Res Out :=
+  (visitValue cfg false src).bind fun o =>
+    if printable o.arg then .ok o else .err .invalidCssValue
+
+/-! ### semantics: the quantity an expression denotes -/
+
+/-- A unit environment.  `px`, `deg`, `s` scale the canonical unit of each convertible kind (so an
+    identity that holds for every environment is also dimensionally homogeneous: `3` and `3px`
+    differ as soon as `px ≠ 1`); `em rem pct vw` are the lengths the relative units resolve to;
+    `atom` gives each opaque operand (`var()`, interpolation) a value. -/
+structure Env where
+  px : Rat
+  deg : Rat
+  s : Rat
+  em : Rat
+  rem : Rat
+  pct : Rat
+  vw : Rat
+  atom : Nat → Option Rat
+
+def Env.wf (ρ : Env) : Prop :=
+  0 < ρ.px ∧ 0 < ρ.deg ∧ 0 < ρ.s ∧ 0 < ρ.em ∧ 0 < ρ.rem ∧ 0 < ρ.pct ∧ 0 < ρ.vw
+
+def BU.size (ρ : Env) : BU → Rat
+  | .px => ρ.px
+  | .inch => 96 * ρ.px
+  | .cm => 4800 / 127 * ρ.px
+  | .mm => 480 / 127 * ρ.px
+  | .pt => 4 / 3 * ρ.px
+  | .em => ρ.em
+  | .rem => ρ.rem
+  | .pct => ρ.pct
+  | .vw => ρ.vw
+  | .deg => ρ.deg
+  | .turn => 360 * ρ.deg
+  | .s => ρ.s
+  | .ms => ρ.s / 1000
+
+def prodSize (ρ : Env) : List BU → Rat
+  | [] => 1
+  | b :: bs => b.size ρ * prodSize ρ bs
+
+def unitVal (ρ : Env) (u : CUnit) : Rat := prodSize ρ u.numer / prodSize ρ u.denom
+
+def Num.val (ρ : Env) (x : Num) : Rat := x.n * unitVal ρ x.u
+
+def applyOp (op : Op) (x y : Rat) : Option Rat :=
+  match op with
+  | .plus => some (x + y)
+  | .minus => some (x - y)
+  | .mul => some (x * y)
+  | .div => if y = 0 then Option.none else some (x / y)
+
+def rmin (a b : Rat) : Rat := if b < a then b else a
+def rmax (a b : Rat) : Rat := if a < b then b else a
+
+def foldMin : Rat → List Rat → Rat
+  | m, [] => m
+  | m, x :: xs => foldMin (rmin m x) xs
+
+def foldMax : Rat → List Rat → Rat
+  | m, [] => m
+  | m, x :: xs => foldMax (rmax m x) xs
+
+/-- CSS Values 4 §10: `calc(x)`, `min`, `max`, `clamp(MIN, VAL, MAX) = max(MIN, min(VAL, MAX))`. -/
+def evalFn (name : CName) (vs : List Rat) : Option Rat :=
+  match name, vs with
+  | .calc, [x] => some x
+  | .min, x :: xs => some (foldMin x xs)
+  | .max, x :: xs => some (foldMax x xs)
+  | .clamp, [a, b, c] => some (rmax a (rmin b c))
+  | _, _ => Option.none
+
+mutual
+def evalCalc (ρ : Env) : CalcArg → Option Rat
+  | .number n u => some (n * unitVal ρ u)
+  | .str id _ => ρ.atom id
+  | .interp id => ρ.atom id
+  | .operation l op r =>
+    match evalCalc ρ l, evalCalc ρ r with
+    | some x, some y => applyOp op x y
+    | _, _ => Option.none
+  | .calculation name args =>
+    match evalArgs ρ args with
+    | some vs => evalFn name vs
+    | Option.none => Option.none
+def evalArgs (ρ : Env) : CalcArgs → Option (List Rat)
+  | .nil => some []
+  | .cons a as =>
+    match evalCalc ρ a, evalArgs ρ as with
+    | some x, some xs => some (x :: xs)
+    | _, _ => Option.none
+end
 
 end Grass.Calc
